@@ -39,6 +39,8 @@ def gen_cases(tier, seed):
             cfgd["lamb_init"] = float(10.0 ** rng.uniform(-3, 1))
         if rng.random() < 0.3:
             cfgd["rho"] = float(10.0 ** rng.uniform(-4, 1))
+        if rng.random() < 0.25:
+            cfgd.update(C.rare_params(rng, allow_unvalidated=False))
         case = work.mk_case(fam, [seed, k], cfgd)
         case["y0"] = "rand" if rng.random() < 0.4 else "none"
         f = rng.random()
